@@ -6,6 +6,7 @@ import (
 
 	"github.com/form3tech-oss/f1/v2/internal/options"
 	"github.com/form3tech-oss/f1/v2/internal/ui"
+	"github.com/form3tech-oss/f1/v2/internal/verifhook"
 	"github.com/form3tech-oss/f1/v2/internal/workers"
 )
 
@@ -13,6 +14,7 @@ import (
 func NewIterationWorker(iterationDuration time.Duration, rate RateFunction) WorkTriggerer {
 	return func(ctx context.Context, _ *ui.Output, workers *workers.PoolManager, opts options.RunOptions) {
 		startRate := rate(time.Now())
+		verifhook.Yield("iw.eval", nil, int64(startRate))
 
 		pool := workers.NewTriggerPool(opts.Concurrency)
 		workerCtx := pool.Start(ctx)
@@ -30,6 +32,7 @@ func NewIterationWorker(iterationDuration time.Duration, rate RateFunction) Work
 				return
 			case start := <-iterationTicker.C:
 				iterationRate := rate(start)
+				verifhook.Yield("iw.eval", nil, int64(iterationRate))
 				pool.Trigger(workerCtx, iterationRate)
 			}
 		}
